@@ -15,6 +15,7 @@ static const struct { const char *name, *bytes; int kind; } ops[] = {
 	{"1,1w", "1,1w\n", K_WPART},
 	{"w g", "w g\n", K_WOTHER},
 	{"w! g", "w! g\n", K_WOTHER},
+	{"w d/f1", "w d/f1\n", K_WOTHER},	/* another file that happens to have the same base name */
 	{"e!", "e!\n", K_EBANG},
 	{"e f2", "e f2\n", K_SWITCH},
 	{"e f1", "e f1\n", K_SWITCH},
